@@ -5,6 +5,7 @@ import (
 	"fmt"
 	"math"
 	"os"
+	"path/filepath"
 	"strings"
 
 	"github.com/semihalev/twig"
@@ -143,6 +144,17 @@ func (p *c16) pipeline(rec *core.Recorder, r *core.Rand, viaLoader bool) {
 	if viaLoader {
 		class = "compiled-loader"
 	}
+	// names that a file-name mapping could confuse with one another: each must come back as itself
+	var twins []string
+	if viaLoader {
+		stem := fmt.Sprintf("kc%d", r.Intn(1000))
+		for _, n := range []string{stem + "/x", stem + "_x", stem + ".x", stem + "-x", stem + " x", strings.ToUpper(stem) + "_X", stem + "__x", stem + "%2Fx", stem + "/sub/x", stem + "_sub_x", stem + "/sub_x", stem + "x", "é" + stem, "e" + stem} {
+			if r.P(2, 3) {
+				twins = append(twins, n)
+				srcs[n] = c02Marker(n) + "{{ 1 + 1 }}"
+			}
+		}
+	}
 	entry := ts.Entries[r.Intn(len(ts.Entries))]
 	total := 0
 	for _, s := range srcs {
@@ -168,6 +180,12 @@ func (p *c16) pipeline(rec *core.Recorder, r *core.Rand, viaLoader bool) {
 		}
 		dir = d
 		defer os.RemoveAll(dir)
+		for _, n := range twins {
+			// the loader does not create sub-directories for names with a slash
+			if i := strings.LastIndex(n, "/"); i >= 0 {
+				os.MkdirAll(filepath.Join(dir, n[:i]), 0o755)
+			}
+		}
 	}
 	failed := false
 	panicked, site, val, stack := core.Guard(func() {
@@ -234,7 +252,35 @@ func (p *c16) pipeline(rec *core.Recorder, r *core.Rand, viaLoader bool) {
 			return
 		}
 	}
+	if len(twins) > 0 {
+		var bad string
+		panicked, site, val, stack := core.Guard(func() {
+			b := twig.New()
+			b.RegisterLoader(twig.NewCompiledLoader(dir))
+			for _, n := range twins {
+				rec.Count("loader-name-twins", 1)
+				got, err := twig.NewCompiledLoader(dir).Load(n)
+				if err != nil || got != srcs[n] {
+					bad = fmt.Sprintf("CompiledLoader.Load(%q) gave %s (err=%v) after SaveCompiled of %d names; its source is %s", n, core.Q(core.Trunc(got, 120)), err, len(srcs), core.Q(srcs[n]))
+					return
+				}
+				out, err := b.Render(n, nil)
+				if err != nil || out != c02Marker(n)+"2" {
+					bad = fmt.Sprintf("template %q read back through the compiled loader renders %s (err=%v), its source renders %s", n, core.Q(core.Trunc(out, 120)), err, core.Q(c02Marker(n)+"2"))
+					return
+				}
+			}
+		})
+		if panicked {
+			rec.Violate("panic", "panic@"+site, "reading compiled files back panicked: "+val, cs, stack)
+			return
+		}
+		if bad != "" {
+			rec.Violate("compiled-loader-names", "loader-read-back-differs", bad, map[string]any{"names_saved": sortedKeys(srcs), "twins": twins}, "")
+			return
+		}
+	}
 	if rec.WantSample(class) {
-		rec.Sample(class, map[string]any{"render": entry, "templates": len(srcs), "total_source_bytes": total, "via_compiled_loader": viaLoader})
+		rec.Sample(class, map[string]any{"render": entry, "templates": len(srcs), "total_source_bytes": total, "via_compiled_loader": viaLoader, "name_twins": twins})
 	}
 }
